@@ -97,7 +97,7 @@ PROPS = {
         level_note=COMMON_NOTE,
     ),
     'C10': dict(
-        components=[('kani', 'search_leaf', {}), ('kani', 'prefilter_findin', {}), ('kani', 'teddy_searcher', {}), (V, 'u5_packed_api', {})] + U1 + [sem('std,lf,ll', 'find,iter,ov,anch,spans', families='small', cfgs='low', rel='span', maxhay='5', thorough_maxhay='7'), b('pc', aspects='find,iter', mode='span')],
+        components=[('kani', 'search_leaf', {}), ('kani', 'prefilter_findin', {}), ('kani', 'teddy_searcher', {}), (V, 'u5_packed_api', {})] + U1 + [sem('std,lf,ll', 'find,iter,ov,anch,spans', families='small', cfgs='low', rel='span', maxhay='5', thorough_maxhay='7'), b('pc', aspects='find,iter', mode='span'), b('packed', mode='span')],
         level_text='Proof (Verus): every postcondition of the search units is stated for an arbitrary valid span; haystack is indexed only at positions in [start,end) (bounds obligations), every reported match lies in the span (lemma_scan_bounds), is_done yields None, Input::set_span/set_start preconditions are exactly the non-panicking domain. Bounded stand-in: all spans incl. start = end+1 on the real builders and prefilters.',
         level_note=COMMON_NOTE,
     ),
